@@ -243,6 +243,15 @@ ResultOK == last.op = "none" \/ LET w == LastWhy IN w = "" \/ Known_F20(w)
 \* without the Known_ disjunct: on the pinned tree TLC exhibits F20 from the model alone (re-finding run)
 ResultStrict == last.op = "none" \/ LastWhy = ""
 
+\* vacuity control: the branch class of the last step, printed by the small coverage run of the check
+\* (TLC's -coverage mode is unusable with the fold-based BigNat library: > 200x slowdown)
+Tag == last.op \o "/" \o last.form \o "/" \o last.ty \o "/"
+       \o (IF last.out.k = "panic" THEN "panic" ELSE IF last.out.r[1] = 0 THEN "zero"
+           ELSE IF last.out.r[2] = 1 THEN "int" ELSE "frac")
+       \o (IF last.op \in {"add", "sub"} /\ last.form = "qq" /\ last.ty = "R"
+           THEN (IF NGcd(last.x[2], last.y[2]) = 1 THEN "/coprime" ELSE "/shared") ELSE "")
+CovEmit == last.op # "none" => PrintT(<<"COV", Tag>>)
+
 NCanonical(r) == r[2] >= 1 /\ NGcd(r[1], r[2]) = 1 /\ (r[1] = 0 => r[2] = 1)
 CanonInv == NCanonical(r1) /\ NCanonical(r2)
 =============================================================================
